@@ -1,6 +1,6 @@
-// adt.Pool.Make on a non-pointer T (adt/pool.go:96-100) attaches the finalizer to a private copy `&o`, which is
+// adt.Pool.Make on a non-pointer T (adt/pool.go:100-102) attaches the finalizer to a private copy `&o`, which is
 // garbage as soon as Make returns: at the next collection the value re-enters the pool although the caller still
-// uses it.  adt.MakeBytesBufferPool builds its buffers on `_buf.Make()` (pool.go:116): after one GC cycle two live
+// uses it.  adt.MakeBytesBufferPool builds its buffers on `_buf.Make()` (pool.go:115): after one GC cycle two live
 // *bytes.Buffer share one backing array.
 // go run ./adt_pool_make_value_type   - exit 1 when the aliasing is present
 package main
